@@ -50,9 +50,20 @@ func underFile(o *Obs, p string) bool {
 	return false
 }
 
+// absSpelling renders an existing path absolutely or through the parent directory (add accepts both).
+func (g *G) absSpelling(p string) string {
+	if !g.E.decorateArgs || !g.Chance(12, "absSpelling") {
+		return p
+	}
+	if g.Bool("viaParent") {
+		return "../w/" + p
+	}
+	return g.E.Box.Work + "/" + p
+}
+
 // decorate renders a clean relative path in a non-canonical but equivalent spelling.
 func (g *G) decorate(p string) string {
-	if !g.E.decorateArgs || !g.Chance(25, "decorate") {
+	if !g.E.decorateArgs || strings.HasPrefix(p, "/") || strings.HasPrefix(p, "../") || !g.Chance(25, "decorate") {
 		return p
 	}
 	switch g.Int(0, 3, "spelling") {
@@ -124,7 +135,11 @@ var ops = []opGen{
 		if hasCommit(g) && g.Bool("staged") {
 			args = append(args, "--staged")
 		}
-		return Step{Op: "goit", Args: append(args, g.NewPath()), Note: "invalid"}
+		unknown := g.NewPath()
+		if ts := g.E.Cur.Tracked(); len(ts) > 0 && g.Chance(35, "beneathTrackedFile") {
+			unknown = g.Pick(ts, "tracked") + "/" + g.DirComponent() // a path beneath a tracked FILE is known to nobody
+		}
+		return Step{Op: "goit", Args: append(args, unknown), Note: "invalid"}
 	}},
 	{"reset", hasCommit, genReset},
 	{"reset-invalid", hasCommit, genResetInvalid},
@@ -224,7 +239,11 @@ func genAdd(g *G) Step {
 			break
 		}
 		c := cands[g.Weighted(ws, "argClass")]
-		args = append(args, g.decorate(g.Pick(c, "arg")))
+		a := g.Pick(c, "arg")
+		if g.E.Cur.Work.Dirs[a] || hasFile(g.E.Cur, a) {
+			a = g.absSpelling(a)
+		}
+		args = append(args, g.decorate(a))
 	}
 	if len(args) == 0 {
 		return Step{Op: "goit", Args: []string{"add"}, Note: "invalid"}
